@@ -1,9 +1,12 @@
 mod c07;
+mod c08;
+mod polygen;
 
 fn main() {
     let opts = bverif::engine::parse_args();
     let code = match opts.prop.as_str() {
         "C07" => c07::run(&opts),
+        "C08" => c08::run(&opts),
         p => {
             eprintln!("roots: unknown property {p}");
             2
